@@ -22,17 +22,24 @@ Definition alldims (D : nat) (p : nat -> bool) : bool := forallb p (seq 0 D).
 Definition weights_pos (os : list obs) : bool := forallb (fun o => Z.ltb 0 (o_w o)) os.
 
 (* guarantee <= deserved <= max(guarantee, realCapability), deserved <= max(guarantee, request) *)
-Definition law_bounds_q (D : nat) (o : obs) : bool :=
+(* [strict]: a dimension without a realCapability entry is one the cluster does not have (after
+   fix 019e7c9 realCapability keeps every dimension of the cluster) - nothing can be handed out
+   there beyond the guarantee.  The capacity plugin's deserved is configuration, so for it
+   ([strict] = false) a missing entry is not judged here (law 111 judges it against the capability). *)
+Definition law_bounds_q_gen (strict : bool) (D : nat) (o : obs) : bool :=
   alldims D (fun j =>
     let g := val0 (cnth (o_gua o) j) in
     let d := val0 (cnth (o_des o) j) in
     Qle_bool g (d + slack)
     && match cnth (o_rcap o) j with
-       | None => true
+       | None => negb strict || Qle_bool d (g + slack)
        | Some c => Qle_bool d (qmax g c + slack)
        end
     && Qle_bool d (qmax g (val0 (cnth (o_req o) j)) + slack)).
+Definition law_bounds_q := law_bounds_q_gen true.
 Definition law_bounds (D : nat) (os : list obs) : bool := negb (weights_pos os) || forallb (law_bounds_q D) os.
+Definition law_bounds_lenient (D : nat) (os : list obs) : bool :=
+  negb (weights_pos os) || forallb (law_bounds_q_gen false D) os.
 
 Definition qsum (l : list Q) : Q := fold_right Qplus 0 l.
 
@@ -76,7 +83,10 @@ Definition law_weight (D : nat) (os : list obs) : bool :=
 Definition law_reserve (unbounded : bool) (D : nat) (total tg : vec) (os : list obs) : bool :=
   forallb (fun o => alldims D (fun j =>
     match cnth (o_rcap o) j with
-    | None => true
+    | None =>
+      (* realCapability must have an entry in every dimension the cluster (or, in the hierarchy,
+         the parent) has: a missing entry is read as "unbounded" by MinDimensionResource *)
+      match cnth total j with Some _ => false | None => true end
     | Some c =>
       match cnth total j with
       | None => if unbounded then true
@@ -132,3 +142,31 @@ Definition law_runs_identical (D : nat) (ab : list (obs * obs)) : bool :=
   forallb (fun p : obs * obs =>
     let (a, b) := p in
     alldims D (fun j => close (val0 (cnth (o_des a) j)) (val0 (cnth (o_des b) j)))) ab.
+
+
+(* 111: the property's own bound: in every dimension the cluster has, where the queue's capability
+   is bounded (normalised: cpu/memory <= 0 and missing entries are unbounded) and not below its
+   guarantee (the admission webhook's guard), deserved <= capability.  [caps] come from the Queue
+   objects, not from the plugin. *)
+Definition law_capability (D : nat) (total : vec) (qs : list (vec * vec * vec)) : bool :=
+  forallb (fun q : vec * vec * vec =>
+    let '(cap, g, d) := q in
+    alldims D (fun j =>
+      match cnth total j, cnth cap j with
+      | Some _, Some y =>
+          if Qle_bool (val0 (cnth g j)) y then Qle_bool (val0 (cnth d j)) (y + slack) else true
+      | _, _ => true
+      end)) qs.
+
+(* 112: the EXCUSE of the known finding C12/map-order-dependent-deserved, and nothing more: two
+   map orders may give different deserved values only when the exact model classifies the case as
+   not robust (some comparison of the loop within 1e-6 of its boundary, a cancellation after an
+   inexact division, more than 30 rounds - there a last-bit difference can flip a decision) and
+   the difference stays within the 0.1 satisfaction tolerance.  Any other difference is a
+   violation of order independence that the finding does not explain. *)
+Definition max_dev_ok (D : nat) (ab : list (obs * obs)) : bool :=
+  forallb (fun p : obs * obs =>
+    let (a, b) := p in
+    alldims D (fun j => Qle_bool (qabs (val0 (cnth (o_des a) j) - val0 (cnth (o_des b) j))) eps)) ab.
+Definition law_order_excused (D : nat) (robust_case : bool) (ab : list (obs * obs)) : bool :=
+  law_runs_identical D ab || (negb robust_case && max_dev_ok D ab).
